@@ -65,6 +65,15 @@ func (c24Engine) Generate(seed uint64, tier string) *simrun.Case {
 			c.Ops = append(c.Ops, simrun.Op{C: 0, K: "advance", A: []int64{c24Advances[r.Intn(len(c24Advances))]}})
 			continue
 		}
+		if r.Chance(1, 12) {
+			// ... and off the whole-second grid: into the last fraction of a second of a lockout, just past its end
+			lk := c.Knobs["lockout"]
+			if lk < 0 {
+				lk = 900
+			}
+			c.Ops = append(c.Ops, simrun.Op{C: 0, K: "advms", A: []int64{[]int64{500, 1500, lk*1000 - 500, lk*1000 - 1, lk*1000 + 500, lk*1000 - 1500}[r.Intn(6)]}})
+			continue
+		}
 		cl := 1 + r.Intn(nclients)
 		u := (cl-1)*2 + 0
 		if r.Chance(1, 5) {
@@ -232,6 +241,11 @@ func (c24Engine) Execute(t *testing.T, c *simrun.Case, keepLog bool) *simrun.Out
 				if op.K == "advance" {
 					flush()
 					time.Sleep(time.Duration(op.Arg(0)) * time.Second)
+					continue
+				}
+				if op.K == "advms" {
+					flush()
+					time.Sleep(time.Duration(op.Arg(0)) * time.Millisecond)
 					continue
 				}
 				phase = append(phase, i)
